@@ -256,68 +256,121 @@ Definition verdicts06 (cs : list pcase) : list N := map verdict06 cs.
 Fixpoint zip_totals (ids : list N) (ts : list Z) : list (N * Z) :=
   match ids, ts with i :: ir, t :: tr => (i, t) :: zip_totals ir tr | _, _ => [] end.
 
-(* the premises of [failover_immediate], read off the observation AFTER the report (scores in
+(* a batch of reports handled in one worker step: a path is affected when one of them is about
+   an interface it uses *)
+Definition affectedB (B : list issue) (p : path) : bool := existsb (fun i => affected i p) B.
+
+(* the premises of [failover_immediate], read off the observation AFTER the reports (scores in
    10^-6, with the comparison margin): some unaffected valid path outranks every affected valid
    path and beats the (penalised) previously active path by more than the swap threshold *)
-Definition failover_premises (k : pcase) (i : issue) (now : N) (aid : N) (post : cobs) : bool :=
+Definition failover_premises (k : pcase) (B : list issue) (now : N) (aid : N) (post : cobs) : bool :=
   let c := k_cfg k in let u := k_univ k in
   let zt := zip_totals (ob_cached post) (ob_totals post) in
   let swap := q_to_micro (c_swap c) in
   existsb (fun bt =>
     let b := lookup u (fst bt) in
-    negb (affected i b) && spec_valid c now b
+    negb (affectedB B b) && spec_valid c now b
     && forallb (fun mt => let m := lookup u (fst mt) in
-                          negb (affected i m && spec_valid c now m) || (snd mt + 100 <? snd bt)%Z) zt
+                          negb (affectedB B m && spec_valid c now m) || (snd mt + 100 <? snd bt)%Z) zt
     && forallb (fun mt => negb (fst mt =? aid) || (swap + 100 <? snd bt - snd mt)%Z) zt) zt.
 
-(* verdict bits of one handled report: 0 fine, 2 unexplained, 16 / 32 known classes *)
-Definition check_issue (k : pcase) (i : issue) (now : N) (pre post : cobs) : N :=
+(* verdict bits of one handled batch of reports: 0 fine, 2 unexplained, 16 / 32 known classes.
+   "The very next send uses a path avoiding it": after the worker handled the batch, if the
+   path in use was affected and a cached valid path is not, the slot must hold an unaffected
+   path.  A failure is explained by C07-ingress-not-matched when every report affecting the
+   path in use does so through an ingress interface only, by C07-hysteresis-keeps-failed when
+   the score premises of [failover_immediate] do not hold on the observed scores; otherwise it
+   is a violation. *)
+Definition check_batch (k : pcase) (B : list issue) (now : N) (pre post : cobs) : N :=
   let c := k_cfg k in let u := k_univ k in
-  match ob_active pre with
-  | None => 0
-  | Some aid =>
+  match B, ob_active pre with
+  | [], _ | _, None => 0
+  | _, Some aid =>
     let a := lookup u aid in
-    if affected i a then
-      let alt := existsb (fun id => let p := lookup u id in negb (affected i p) && spec_valid c now p) (ob_cached pre) in
-      let post_ok := match ob_active post with Some x => negb (affected i (lookup u x)) | None => false end in
+    if affectedB B a then
+      let alt := existsb (fun id => let p := lookup u id in negb (affectedB B p) && spec_valid c now p) (ob_cached pre) in
+      let post_ok := match ob_active post with Some x => negb (affectedB B (lookup u x)) | None => false end in
       if negb alt || post_ok then 0
-      else if class_ingress i a then 32
-      else if failover_premises k i now aid post then 2
+      else if forallb (fun i => negb (affected i a) || class_ingress i a) B then 32
+      else if failover_premises k B now aid post then 2
       else 16
     else
       (* not about the path in use: the slot stays; about no cached path at all: nothing moves *)
       if negb (optN_eqb (ob_active post) (ob_active pre)) then 2
-      else if negb (existsb (fun id => affected i (lookup u id)) (ob_cached pre))
+      else if negb (existsb (fun id => affectedB B (lookup u id)) (ob_cached pre))
               && negb (list_eqb N.eqb (ob_cached post) (ob_cached pre)) then 2
       else 0
   end.
 
 Definition is_neg_penalty (q : Q) : bool := Qle_bool q (-(2 # 5)).
 
-Fixpoint c07_scan (k : pcase) (pre : option cobs) (pend : list issue) (evs : list (cev * cobs)) : list N :=
+(** "... and does become eligible again once it has decayed": oracles after a lookup.
+    Literal numbers of the documentation (issues.rs / scoring.rs comments): penalty 1.0 for a
+    link failure, 0.4 for a first-hop send failure, issue half-life 30 s, 0.02 per hop weighted
+    0.1. *)
+Definition spec_penalty_micro (i : issue) (elapsed : N) : Z :=
+  let p := match i with IFirstHop _ _ => (2 # 5) | IOther => 0 | _ => 1 end%Q in
+  q_to_micro (decay_approx p elapsed 30000000000).
+Definition len_micro (p : path) : Z := Z.max 0 (100000 - 2000 * Z.of_N (p_hops p)).
+Fixpoint untrack (i : issue) (l : list (issue * N)) : list (issue * N) :=
+  match l with [] => [] | (j, t) :: r => if issue_eqb i j then untrack i r else (j, t) :: untrack i r end.
+
+(* a path that ENTERS the cache (its fingerprint was not cached before) starts with at most the
+   DECAYED penalties of the issues reported about its interfaces *)
+Definition new_path_decayed_ok (k : pcase) (tracked : list (issue * N)) (now : N) (pre post : cobs) : bool :=
+  let u := k_univ k in
+  let old_fps := map (fun id => p_fp (lookup u id)) (ob_cached pre) in
+  forallb (fun it =>
+    let p := lookup u (fst it) in
+    if memN (p_fp p) old_fps then true else
+    let pen := fold_left (fun acc jt => if steers (fst jt) p then (acc + spec_penalty_micro (fst jt) (now - snd jt))%Z else acc)
+                         tracked 0%Z in
+    (- Z.min 1000000 pen - 300 <=? snd it - len_micro p)%Z)
+  (zip_totals (ob_cached post) (ob_totals post)).
+(* after a lookup the cache is ranked by score (so a recovered path wins against a worse one) *)
+Fixpoint ranked_desc (l : list Z) : bool :=
+  match l with x :: ((y :: _) as r) => (y <=? x + 100)%Z && ranked_desc r | _ => true end.
+(* with no path in use before, the best-ranked valid path is taken into use *)
+Definition takes_best_ok (k : pcase) (now : N) (pre post : cobs) : bool :=
+  match ob_active pre with
+  | Some _ => true
+  | None => optN_eqb (ob_active post)
+                     (find (fun id => spec_valid (k_cfg k) now (lookup (k_univ k) id)) (ob_cached post))
+  end.
+
+Fixpoint c07_scan (k : pcase) (pre : option cobs) (pend : list issue) (tracked : list (issue * N))
+         (evs : list (cev * cobs)) : list N :=
   match evs with
   | [] => []
   | (e, ob) :: r =>
-    let '(bits, pend') :=
+    let ndel := (length pend - N.to_nat (ob_chan ob))%nat in
+    let '(bits, pend', tracked') :=
       match e, pre with
-      | CReport _ i, _ => (0, if ob_out ob =? 3 then pend ++ [i] else pend)
+      | CReport now i, _ =>
+        if ob_out ob =? 3 then (0, pend ++ [i], (i, now) :: untrack i tracked) else (0, pend, tracked)
       | CDeliver now, Some pv =>
-        if ob_out ob =? 5
-        then (match pend with [i] => check_issue k i now pv ob | _ => 0 end,
-              skipn (length pend - N.to_nat (ob_chan ob)) pend)
-        else (0, pend)
+        if ob_out ob =? 5 then (check_batch k (firstn ndel pend) now pv ob, skipn ndel pend, tracked)
+        else (0, pend, tracked)
       | CDirect now i pen, Some pv =>
-        (match pend with [] => if is_neg_penalty pen then check_issue k i now pv ob else 0 | _ => 0 end,
-         skipn (length pend - N.to_nat (ob_chan ob)) pend)
-      | CTick _ _, _ => (0, skipn (length pend - N.to_nat (ob_chan ob)) pend)
-      | _, _ => (0, pend)
+        (match pend with [] => if is_neg_penalty pen then check_batch k [i] now pv ob else 0 | _ => 0 end,
+         skipn ndel pend, tracked)
+      | CTick now _, Some pv =>
+        (if (ob_out ob =? 1)
+            && negb (new_path_decayed_ok k tracked now pv ob && ranked_desc (ob_totals ob) && takes_best_ok k now pv ob)
+         then 2 else 0, skipn ndel pend, tracked)
+      | CTick now _, None =>
+        (if (ob_out ob =? 1)
+            && negb (new_path_decayed_ok k tracked now (mkObs 0 0 [] [] None 0 0 0 false 0 0 0 0 false) ob
+                     && ranked_desc (ob_totals ob))
+         then 2 else 0, skipn ndel pend, tracked)
+      | _, _ => (0, pend, tracked)
       end in
-    bits :: c07_scan k (Some ob) pend' r
+    bits :: c07_scan k (Some ob) pend' tracked' r
   end.
 
 Definition any_bit (b : N) (l : list N) : bool := existsb (fun x => N.testbit x (N.log2 b)) l.
 Definition verdict07 (k : pcase) : N :=
-  let bits := if k_t0 k =? 0 then [] else c07_scan k None [] (k_evs k) in
+  let bits := if k_t0 k =? 0 then [] else c07_scan k None [] [] (k_evs k) in
   model_mismatch k
   + (if panicked k || any_bit 2 bits then 2 else 0)
   + (if any_bit 16 bits then 16 else 0) + (if any_bit 32 bits then 32 else 0).
